@@ -106,6 +106,7 @@ class RegexFacade:
         self.entries = []   # (fn, timeout-as-seen)
         self.real = {}
         self.compiles = 0
+        self.real_timeout = 0.02
 
     def reset(self, mode='pass'):
         self.mode = mode
@@ -113,10 +114,12 @@ class RegexFacade:
         self.entries = []
         self.compiles = 0
 
-    def charge(self, fn, timeout):
-        self.entries.append((fn, timeout))
+    def charge(self, fn, timeout, plen=0, slen=0):
+        self.entries.append((fn, timeout, plen, slen))
         ok = isinstance(timeout, (int, float)) and not isinstance(timeout, bool) and 0 < timeout < float('inf')
         self.clock += float(timeout) if ok else float('inf')
+        if ok:
+            VCLOCK.advance(float(timeout))      # worst case: the engine used its whole allowance
 
 
 REGEX = RegexFacade()
@@ -131,11 +134,13 @@ class _PatternProxy:
         if name in RegexFacade.MATCHING:
             def entry(*a, **k):
                 if REGEX.mode == 'virtual':
-                    REGEX.charge('pattern.' + name, k.get('timeout'))
+                    subj = a[1] if name in ('sub', 'subn', 'subf', 'subfn') and len(a) > 1 else (a[0] if a else k.get('string', ''))
+                    REGEX.charge('pattern.' + name, k.get('timeout'), len(getattr(self._pat, 'pattern', '') or ''),
+                                 len(subj) if isinstance(subj, str) else 0)
                     k = dict(k)
-                    k['timeout'] = 0.05
+                    k['timeout'] = REGEX.real_timeout
                 else:
-                    REGEX.entries.append(('pattern.' + name, k.get('timeout')))
+                    REGEX.entries.append(('pattern.' + name, k.get('timeout'), 0, 0))
                 return real(*a, **k)
             return entry
         return real
@@ -154,11 +159,13 @@ def _install_regex():
 
         def entry(*a, _real=real, _name=name, **k):
             if REGEX.mode == 'virtual':
-                REGEX.charge(_name, k.get('timeout'))
+                plen = len(a[0]) if a and isinstance(a[0], str) else 0
+                subj = a[2] if _name in ('sub', 'subn', 'subf', 'subfn') and len(a) > 2 else (a[1] if len(a) > 1 else k.get('string', ''))
+                REGEX.charge(_name, k.get('timeout'), plen, len(subj) if isinstance(subj, str) else 0)
                 k = dict(k)
-                k['timeout'] = 0.05
+                k['timeout'] = REGEX.real_timeout
             else:
-                REGEX.entries.append((_name, k.get('timeout')))
+                REGEX.entries.append((_name, k.get('timeout'), 0, 0))
             return _real(*a, **k)
         entry.__name__ = name
         setattr(regex, name, entry)
@@ -432,6 +439,56 @@ def make_cache(spec):
     return CACHE_KINDS[kind](**{k: v for k, v in spec.items() if k != 'kind'})
 
 
+# --------------------------------------------------------------------------- S6b wall clock as seen through `time`
+class VClock:
+    """time.time / monotonic / perf_counter / process_time (and _ns variants) return real time + a virtual offset;
+    time.sleep advances the offset instead of sleeping. The offset only moves when the simulator injects a stall
+    (host wait, regex engine entry charged with its timeout), so one seed is one exactly repeatable timeline as far
+    as *differences* are concerned - and no check ever compares absolute times."""
+
+    def __init__(self):
+        self.offset = 0.0
+        self.real = {}
+        self.frozen = None      # when set, the real part is frozen at this value: fully deterministic readings
+
+    def advance(self, dt):
+        if dt == dt and dt not in (float('inf'), float('-inf')) and dt > 0:
+            self.offset += dt
+
+    def reset(self):
+        self.offset = 0.0
+
+
+VCLOCK = VClock()
+
+
+def _install_clock():
+    import time as _t
+    for name in ('time', 'monotonic', 'perf_counter', 'process_time'):
+        real = getattr(_t, name)
+        VCLOCK.real[name] = real
+
+        def f(_real=real):
+            base = VCLOCK.frozen if VCLOCK.frozen is not None else _real()
+            return base + VCLOCK.offset
+        f.__name__ = name
+        setattr(_t, name, f)
+        rns = getattr(_t, name + '_ns', None)
+        if rns is not None:
+            VCLOCK.real[name + '_ns'] = rns
+
+            def g(_real=rns):
+                base = int(VCLOCK.frozen * 1e9) if VCLOCK.frozen is not None else _real()
+                return base + int(VCLOCK.offset * 1e9)
+            g.__name__ = name + '_ns'
+            setattr(_t, name + '_ns', g)
+    VCLOCK.real['sleep'] = _t.sleep
+
+    def sleep(sec):
+        VCLOCK.advance(float(sec))
+    _t.sleep = sleep
+
+
 _installed = False
 
 
@@ -442,4 +499,5 @@ def install_before_import():
     assert 'smartquery' not in sys.modules, 'seams must be installed before smartquery is imported'
     _install_entropy()
     _install_regex()
+    _install_clock()
     _installed = True
